@@ -1228,6 +1228,15 @@ def stmt_templates():
         return [y]
     T.append(("case_negative_key_on_unsigned_selector", t_case_negative_key))
 
+    def t_nested_if_outer_else(m, dom, L, E1, E2, pfx):
+        # If(c, If(x, A)).Else(B): the Else belongs to the OUTER If (dangling-else hazard in the text), also with a deeper chain and a Case inside
+        y, z = tgt(pfx, "y", 6), tgt(pfx, "z", 4, True)
+        dom.__iadd__([y.eq(1), If(L["c"], If(L["a"][0], y.eq(E1()))).Else(y.eq(E2())),
+                      If(L["a"][1], If(L["c"], If(L["b"][0], z.eq(-2)))).Else(z.eq(3)),
+                      If(L["a"][2], Case(L["c"], {1: z[0].eq(1)})).Else(z[1].eq(1))])
+        return [y, z]
+    T.append(("nested_if_with_outer_else", t_nested_if_outer_else))
+
     def t_one_bit_signed(m, dom, L, E1, E2, pfx):
         # a ONE-BIT SIGNED signal (values 0 / -1) as port, register and operand: sign extension into wider targets, arithmetic, comparison with 0
         y, z, r = tgt(pfx, "y", 6, True), tgt(pfx, "z", 5), Signal((1, True), name_override="%s_r" % pfx)
